@@ -1,7 +1,7 @@
 (* C02 - Evaluation follows Boolean semantics, with consistent default and checked modes.
    Statements only; every proof is `exact <lemma>`. *)
 From BBF Require Import Base.Prelude Base.Names Base.Bits Spec.Sem
-     Model.Expr Model.Table Proofs.ExprProofs Proofs.TableProofs.
+     Model.Expr Model.Table Model.LibBdd Model.Bdd Proofs.ExprProofs Proofs.TableProofs Proofs.DdProofs Proofs.BddProofs Proofs.BddOps.
 
 (* expressions: evaluation with a default is the meaning at the completed assignment *)
 Theorem C02_expr_default : forall e rho d, eval_default e rho d = sem (complete d rho) e.
@@ -58,6 +58,23 @@ Proof.
   unfold point_of in *. rewrite map_length in H. exact H.
 Qed.
 Print Assumptions C02_table_in_range.
+
+(* diagrams *)
+Theorem C02_bdd_default : forall b rho d, b_eval_default b rho d = bsem b (complete d rho).
+Proof. exact b_eval_default_sem. Qed.
+Print Assumptions C02_bdd_default.
+
+Theorem C02_bdd_coincidence : forall b v v', (forall x, In x (b_inputs b) -> v x = v' x) -> bsem b v = bsem b v'.
+Proof. exact bsem_coincidence. Qed.
+Print Assumptions C02_bdd_coincidence.
+
+Theorem C02_bdd_checked : forall b rho,
+  match b_eval_checked b rho with
+  | inl r => (forall x, In x (b_inputs b) -> get rho x <> None) /\ forall d, r = bsem b (complete d rho)
+  | inr errs => errs <> [] /\ errs = missing rho (b_inputs b)
+  end.
+Proof. exact b_eval_checked_spec. Qed.
+Print Assumptions C02_bdd_checked.
 
 (* non-vacuity: a concrete table meets the hypotheses *)
 Example C02_table_example :
